@@ -43,7 +43,8 @@ def part_a(rec, li, n, seed, only=None):
         if fr not in layout or to not in layout:
             continue
         m = S.pos_len(fr, n)
-        base = rows(m, seed)
+        base0 = rows(m, seed)
+        ncall = 0
         for rule, fv in RULES:
             for supply in supplies_for(rule, fv):
                 gkw, ckw = supply_kwargs("X", rule, fv, supply)
@@ -54,6 +55,8 @@ def part_a(rec, li, n, seed, only=None):
                     case = dict(part="a", li=li, n=n, fr=fr, to=to, rule=rule, fv=fv, supply=supply, omit=omit)
                     if only is not None and only != case:
                         continue
+                    ncall += 1
+                    base = base0 * float(1 + ncall % 3)
                     da = xr.DataArray(base.copy(), dims=["b", S.dimname("X", fr)], name="q")
                     if g is None:
                         g = build_grid({"X": layout}, {"X": n}, gkw)
